@@ -173,9 +173,11 @@ def r1_r2(ctx, fs):
                         v = a['slots']['var'].get('name')
                         break
                 atv = [d['name'] for d in walk(ini) if d.get('k') == 'VarDecl']
+                # the row found in the tableau: by the name of the iterator, or (when that local is only a name for the look-up) by the look-up itself
+                rows = [d['name'] for d in walk(ini) if d.get('k') == 'VarDecl'] + [canon(d['init'], env, subst=False) for d in walk(ini) if d.get('k') == 'VarDecl' and isinstance(d.get('init'), dict)]
                 want = {('decl-init', canon(dn[0]['init'], env, subst=False) == ('[]', ('.', 'expr', 'vars'), v)),
                         ('erase', ('mcall', 'std::map<const unsigned long, smt::rational>::erase', ('.', 'expr', 'vars'), v) in body),
-                        ('add-row', ('+=', 'expr', ('*',) + tuple(sorted((('.', ('.', atv[0] if atv else '?', 'second'), 'l'), c), key=repr))) in body)}
+                        ('add-row', any(('+=', 'expr', ('*',) + tuple(sorted((('.', ('.', r, 'second'), 'l'), c), key=repr))) in body for r in rows))}
                 if all(ok for _, ok in want):
                     subst_ok = True
     ctx.instance(rid1, [f.id, 'basic-substitution'], {'fact': 'basic variables are replaced by row * removed coefficient', 'holds': subst_ok})
